@@ -22,6 +22,8 @@ from .base import PropBase, St
 
 P = "C19"
 TYPES = ("CustomAuth", "CustomControl", "CustomFilter")
+# unknown result codes incl. pairs that are congruent modulo 2**32 (process-global enum pseudo-members)
+CODES = [4096, 8235, 70, -1, 4294967295, 2 ** 32 + 4096, 2 ** 32 + 80, 2 ** 33 + 80, 2 ** 32 + 70]
 ALT = {"CustomAuth": "AltAuth", "CustomControl": "AltControl", "CustomFilter": "AltFilter"}
 SLOT = {"CustomAuth": "auth", "AltAuth": "auth", "CustomControl": "control", "AltControl": "control",
         "CustomFilter": "filter", "AltFilter": "filter"}
@@ -39,6 +41,7 @@ def _transcribe(sessions, order_ops):
 
     live = {}
     out = {}
+    kept = {}
     for op in order_ops:
         i = op["s"]
         if i not in live:
@@ -59,7 +62,8 @@ def _transcribe(sessions, order_ops):
                 data = bytes.fromhex(op["hex"])
                 msgs = se.receive(bytearray(data) if op.get("ba") else data)
                 rec["ret"] = [canon_msg(m) for m in msgs]
-                rec["types"] = [[type(c).__name__ for c in (m.controls or [])] for m in msgs]
+                rec["types"] = [[[type(c).__name__, _rawval(c)] for c in (m.controls or [])] for m in msgs]
+                kept.setdefault(i, []).extend(msgs)
         except Exception as e:  # noqa: BLE001
             rec["exc"] = [type(e).__name__, str(e)[:300]]
             resp = getattr(e, "response", None)
@@ -67,7 +71,18 @@ def _transcribe(sessions, order_ops):
                 rec["resp"] = bytes(resp).hex()
         rec["state"] = state_name(se)
         out[i].append(rec)
+    # returned messages are self-contained values: what each session was handed must still read the same at the end
+    for i, msgs in kept.items():
+        out[i].append({"k": "final", "ret": [canon_msg(m) for m in msgs],
+                       "types": [[[type(c).__name__, _rawval(c)] for c in (m.controls or [])] for m in msgs],
+                       "codes": [[getattr(m.result.result_code, "name", None), int(getattr(m.result.result_code, "value", -1))]
+                                 for m in msgs if hasattr(m, "result")]})
     return {str(i): v for i, v in out.items()}
+
+
+def _rawval(c):
+    v = getattr(c, "value", None)
+    return bytes(v).hex() if isinstance(v, (bytes, bytearray, memoryview)) else v
 
 
 def _registration_semantics(customs_bytes):
@@ -246,6 +261,7 @@ class C19(PropBase):
         model = g["model"]
         role = g["role"]
         gen = Gen(rng, big=0.05, customs=sorted(x for x in g["regs"] if x in TYPES))
+        gen.odd_known = True
         genc = Gen(rng, big=0.05, customs=sorted(x for x in g["regs"] if x in TYPES), bad_text=0.02)  # call arguments only
         x = rng.random()
         # registrations (planned ones early or late; duplicates now and then)
@@ -270,10 +286,10 @@ class C19(PropBase):
             if model.out and x < 0.7:
                 mid = policy.pick_sorted(rng, model.out) if rng.random() < 0.93 else model.last_id + 5
                 kind = policy.matching_response_kind(rng, model, mid) if mid in model.out else "ExtendedResponse"
-                code = rng.choice([None, None, 14, 4096, 8235]) if kind == "BindResponse" else None
+                code = rng.choice([None, None, 14] + CODES) if kind == "BindResponse" else None
                 msg = policy.byz_response(gen, mid, kind, code)
                 if kind != "BindResponse" and rng.random() < 0.3 and "result" in msg:
-                    msg["result"]["code"] = rng.choice([4096, 8235, 70])
+                    msg["result"]["code"] = rng.choice(CODES)
                 data = rfc4511.enc_msg(msg)
                 self._model_recv(g, data)
                 return {"k": "recv", "hex": data.hex(), "ba": rng.random() < 0.3}
@@ -304,7 +320,7 @@ class C19(PropBase):
             else:
                 m, a = c
                 if rng.random() < 0.3:
-                    a["code"] = rng.choice([4096, 8235, 70])
+                    a["code"] = rng.choice(CODES)
         exp = model.call_expect(m, a)
         if exp in ("accept", "either"):
             model.call_commit(m, a, True)
@@ -336,7 +352,10 @@ class C19(PropBase):
             msg["controls"] = [{"t": "CustomControl", "critical": rng.random() < 0.5, "size": rng.choice([0, 7, 65536])}]
         elif which == "CustomFilter":
             msg = expected_message("search_request", gen.a_search_request(), mid)
-            msg["filter"] = {"t": "And", "filters": [{"t": "CustomFilter", "value": "v"}, {"t": "Present", "attribute": "cn"}]}
+            f = {"t": "CustomFilter", "value": "v"}
+            for lvl in range(rng.choice([0, 1, 1, 2, 30, 60])):
+                f = {"t": "Not", "filter": f} if lvl % 2 else {"t": "And", "filters": [f, {"t": "Present", "attribute": "cn"}]}
+            msg["filter"] = f
         else:
             msg = expected_message("bind", gen.a_bind_custom(), mid)
             if model.out:
